@@ -796,9 +796,30 @@ func (x *Exec) initSlice(initFn *ssa.Function, g *ssa.Global) ([]ssa.Instruction
 	inSlice := map[ssa.Instruction]bool{}
 	var work []ssa.Instruction
 	found := false
+	// addresses derived from the global (struct / array literals are stored field by field)
+	derived := map[ssa.Value]bool{g: true}
+	for changed := true; changed; {
+		changed = false
+		for _, b := range initFn.Blocks {
+			for _, in := range b.Instrs {
+				switch a := in.(type) {
+				case *ssa.FieldAddr:
+					if derived[a.X] && !derived[a] {
+						derived[a] = true
+						changed = true
+					}
+				case *ssa.IndexAddr:
+					if derived[a.X] && !derived[a] {
+						derived[a] = true
+						changed = true
+					}
+				}
+			}
+		}
+	}
 	for _, b := range initFn.Blocks {
 		for _, in := range b.Instrs {
-			if s, ok := in.(*ssa.Store); ok && s.Addr == g {
+			if s, ok := in.(*ssa.Store); ok && derived[s.Addr] {
 				inSlice[in] = true
 				work = append(work, in)
 				found = true
